@@ -160,5 +160,44 @@ fn one(ctx: &Ctx, rep: &mut Report, id: usize, cfg: Cfg, k: usize) {
             }
         }
     }
+    // several promises of one statement that do not fit the bit length (equal ones, ones with the same high bits):
+    // refused outright in every mode, like a single one
+    if m >= 2 && cfg.n < 64 {
+        let top = 1u64 << cfg.n;
+        let a = k % m;
+        let b = (a + 1 + k % (m - 1)) % m;
+        let sets: Vec<(&str, Vec<(usize, u64)>)> = vec![
+            ("two equal promises of 2^n", vec![(a, top), (b, top)]),
+            ("two promises above 2^n with equal high bits", vec![(a, top + 3), (b, top + 5)]),
+            ("two promises of u64::MAX", vec![(a, u64::MAX), (b, u64::MAX)]),
+            ("two promises with one equal high bit", vec![(a, 1u64 << 40.max(cfg.n)), (b, (1u64 << 40.max(cfg.n)) + 7)]),
+            ("every promise 2^n", (0..m).map(|j| (j, top)).collect()),
+        ];
+        for (nm, set) in sets {
+            let mut pr = promises.clone();
+            for (j, v) in &set {
+                pr[*j] = Some(*v);
+            }
+            let st = case.statement_with(&prm, &pr, seed);
+            for action in ACTIONS {
+                rep.eval(&(GROUP, "verify-multi", case.key(), nm, action_name(action)));
+                rep.count("verifier_substitutions", 1);
+                rep.count("verifier_promise_does_not_fit", 1);
+                <P as Gx>::probe_arm();
+                let r = no_panic(|| verify_one(&t, &st, &proof, action));
+                let probe = <P as Gx>::probe_take();
+                match r {
+                    Err(pn) => rep.violation(&format!("C07 verify-panic [{nm}]"), &format!("verifier panicked with {nm}: {pn}"), replay(nm)),
+                    Ok(res) => {
+                        if res.is_ok() {
+                            rep.violation(&format!("C07 verifier-promise [{nm}] accepted=true"), &format!("{nm}: not refused in {} although they do not fit {} bits", action_name(action), cfg.n), replay(nm));
+                        } else if probe.map(|f| f.calls > 0).unwrap_or(false) {
+                            rep.violation(&format!("C07 oversized-promise-not-refused [{nm}]"), &format!("{nm}: the verifier went on to evaluate its final check ({})", action_name(action)), replay(nm));
+                        }
+                    },
+                }
+            }
+        }
+    }
     rep.sample(GROUP, json!({"case": case.json()}));
 }
